@@ -318,7 +318,9 @@ class Check:
             "violations": len(self.violations),
         }
         os.makedirs(EVIDENCE, exist_ok=True)
-        path = os.path.join(EVIDENCE, f"{self.prop}.json")
+        # (runs against seeded changes set VERIF_EVIDENCE_SUFFIX so that they do not overwrite
+        #  the evidence of the unchanged tree)
+        path = os.path.join(EVIDENCE, f"{self.prop}{os.environ.get('VERIF_EVIDENCE_SUFFIX', '')}.json")
         tmp = path + ".tmp"
         with open(tmp, "w") as f:
             json.dump(ev, f, indent=1, default=str)
@@ -337,6 +339,27 @@ class Check:
 # --------------------------------------------------------------------------- parallel map
 
 
+def _roomy(f):
+    return f()
+
+
+# CPython 3.12 mmaps/munmaps a 16 KiB "data stack chunk" whenever the recursion crosses a chunk
+# boundary; Scenic's recursive-descent parser does that ~90x per compiled program and page faults
+# are very expensive on this VM.  A frame that claims a huge evaluation stack makes CPython
+# allocate ONE big chunk for everything below it (measured: 60 compilations 1.3 s instead of
+# 7-13 s).  Purely a performance device of the harness; nothing in /repo changes.
+_roomy.__code__ = _roomy.__code__.replace(co_stacksize=400000)
+
+
+def roomy(fn, *args):
+    return _roomy(lambda: fn(*args))
+
+
+def _roomy_call(arg):
+    fn, x = arg
+    return _roomy(lambda: fn(x))
+
+
 def pmap(fn, items, procs=6, chunk=None, fresh=False):
     """Map fn over items in forked worker processes (each imports scenic afresh from /repo).
     fn must be a top-level function; results are returned in order."""
@@ -351,15 +374,16 @@ def pmap(fn, items, procs=6, chunk=None, fresh=False):
         return []
     procs = max(1, min(procs, len(items)))
     if procs == 1:
-        return [fn(x) for x in items]
+        return [roomy(fn, x) for x in items]
     ctx = mp.get_context("fork")
+    pairs = [(fn, x) for x in items]
     if fresh:  # one forked child per item: every item starts from the parent's pristine state
         with ctx.Pool(procs, maxtasksperchild=1) as pool:
-            return pool.map(fn, items, chunksize=1)
+            return pool.map(_roomy_call, pairs, chunksize=1)
     if chunk is None:
         chunk = max(1, len(items) // (procs * 8))
     with ctx.Pool(procs) as pool:
-        return pool.map(fn, items, chunksize=chunk)
+        return pool.map(_roomy_call, pairs, chunksize=chunk)
 
 
 def canon_float(x, tol=1e-6):
